@@ -283,8 +283,13 @@ def check_type(prog, ty, K, timeout_ms=120000):
     return res
 
 
+# per-type bound overrides (stated in evidence): MT935's field-23 rules rebuild strings; K = 2 is not decided for T26
+K_FOR = {"MT935": 1}
+
+
 def _worker(args):
     ty, K = args
+    K = K_FOR.get(ty, K)
     try:
         prog = Program(layout_mod.extract_ast())
         return check_type(prog, ty, K)
